@@ -3,6 +3,7 @@
 package props
 
 import (
+	"bytes"
 	"context"
 	"encoding/json"
 	"fmt"
@@ -57,7 +58,7 @@ func runC20(ctx *Ctx) {
 	family := map[string]string{"NEA1": "snow", "NIA1": "snow", "NEA1(300 octets)": "snow", "NIA1(300 octets)": "snow", "NASEncode(NIA1,NEA1)": "snow", "NASDecode(NIA1,NEA1)": "snow",
 		"NEA2": "aes", "NIA2": "aes", "NEA2(300 octets)": "aes", "NASEncode(NIA2,NEA2)": "aes", "NASDecode(NIA2,NEA0)": "aes",
 		"DeriveRESstarAndSetKey": "keys", "DeriveRESstarAndSetKey(OP only)": "keys", "Milenage+KDF": "keys",
-		"SUCI+CreateUE+capability": "ids", "identifier conversions": "ids", "NAS constructors": "nas", "NAS-plain-codec": "codec", "NGAP-encode-decode": "codec", "NGAP builders": "ngap"}
+		"SUCI+CreateUE+capability": "ids", "identifier conversions": "ids", "NAS constructors": "nas", "NAS-plain-codec": "codec", "NGAP-encode-decode": "codec", "NGAP builders": "ngap", "NGAP refused encode": "ngap"}
 	nsingle := len(ops) - len(c20sequences)
 	for i := nsingle; i < len(ops); i++ {
 		groups = append(groups, group{[]int{i, i}}) // two threads, each performing the same two operations in a row on its own UE
@@ -99,8 +100,8 @@ func runC20(ctx *Ctx) {
 			}
 		}
 		r.Sample("threads: UE0 NEA1(5 octets) || UE1 NIA1(9 octets): every interleaving at the 90+ yield points with <=2 preemptions; outputs must equal the sequential ones")
-		r.Rule = fmt.Sprintf("cooperative scheduler (one goroutine runs at a time; scheduling points = every statement that reads or writes a package-level variable mutated at run time anywhere in the instrumented packages [found by AST analysis of the current tree, listed under mutated_package_level_variables; the first %d dynamic instances of each such statement per thread], scheduler-aware mutex operations, thread start/end): for %d unordered pairs of %d operation kinds (21 single operations and 11 two-operation sequences performed by one thread, each sequence against itself) (each thread on its own UE context, keys and messages; quick: every operation against itself, every pair inside a family of operations sharing code, every pair involving a codec; thorough: all pairs)%s every schedule with <=%d preemptions (one less for groups containing a composite NASEncode/NASDecode operation and, in quick, for pairs across families); "+
-			"oracle: every thread's outputs == the outputs of the same operation run alone (and == the independent references for NEA1/NIA1); deadlock = violation; plus a separate free-running pass of the same bodies built with -race (G in {2,8,64} goroutines, 200 rounds): any data race report is a violation; distinct = (group, schedule); non-trivial = schedules with at least one preemption",
+		r.Rule = fmt.Sprintf("cooperative scheduler (one goroutine runs at a time; scheduling points = every statement that reads or writes a package-level variable mutated at run time anywhere in the instrumented packages [found by AST analysis of the current tree, listed under mutated_package_level_variables; the first %d dynamic instances of each such statement per thread], scheduler-aware mutex operations, thread start/end): for %d unordered pairs of %d operation kinds (22 single operations and 14 two-operation sequences performed by one thread, each sequence against itself) (each thread on its own UE context, keys and messages; quick: every operation against itself, every pair inside a family of operations sharing code, every pair involving a codec; thorough: all pairs)%s every schedule with <=%d preemptions (one less for groups containing a composite NASEncode/NASDecode operation and, in quick, for pairs across families); "+
+			"oracle: every thread's outputs == the outputs of the same operation run alone (and == the independent references for NEA1/NIA1); deadlock = violation; plus cold start: every single operation against itself and four pairs of primitives sharing tables, every schedule with <=1 (thorough 2) preemptions, ONE execution per fresh process (lazily built state is built by the two threads' own first calls), same oracle; plus a separate free-running pass of the same bodies built with -race (G in {2,8,64} goroutines, 200 rounds): any data race report is a violation; distinct = (group, schedule); non-trivial = schedules with at least one preemption",
 			vsched.MaxPerSite, npairs, len(ops), map[bool]string{true: " and 9 triples", false: ""}[ctx.Thorough], bound)
 		r.Assume("only sequentially consistent interleavings at the inserted yield points are explored; unsynchronised accesses elsewhere are the business of the free-running -race pass (a dynamic detector, not an enumeration)",
 			"switches at a thread's end count as deviations in the explorer (exact for 2 threads, a slightly smaller space than the true preemption bound for 3)")
@@ -173,6 +174,134 @@ func runC20(ctx *Ctx) {
 		}
 		l.Merge()
 	}
+	// cold start: every single operation against itself, and the pairs of primitives that share tables
+	coldPairs := [][2]int{}
+	for a := 0; a < nsingle; a++ {
+		coldPairs = append(coldPairs, [2]int{a, a})
+	}
+	coldPairs = append(coldPairs, [2]int{0, 1}, [2]int{2, 3}, [2]int{0, 6}, [2]int{2, 7})
+	var coldRuns int64
+	for ci, cp := range coldPairs {
+		if ctx.Mine(len(groups) + ci) {
+			coldRuns += c20cold(ctx, l, ops, seq, cp[0], cp[1])
+			l.Merge()
+		}
+	}
+	r.Add("cold_start_executions_one_process_each", coldRuns)
+}
+
+// ---- cold start ----
+//
+// State that the library builds lazily on first use (a table filled by the first call, a once-guarded cache) is already
+// there in every execution after the first one of a process, so the exploration above only sees it warm. c20cold runs
+// every schedule of a pair of operations with <= 1 preemption in a FRESH process each (one execution per process: the
+// two threads' calls are the first use of everything), and compares with the outputs of the warm sequential runs.
+
+func init() { workerKinds["c20cold"] = c20coldWorker }
+
+type c20coldResult struct {
+	Arity []int    `json:"arity"`
+	Outs  []string `json:"outs"`
+	Err   string   `json:"err"`
+	Panic string   `json:"panic"`
+}
+
+// c20coldWorker: args = opA opB comma-separated-picks; prints one JSON line.
+func c20coldWorker(args []string) {
+	real := os.Stdout
+	if devnull, err := os.OpenFile(os.DevNull, os.O_WRONLY, 0); err == nil {
+		os.Stdout = devnull
+	}
+	vsched.MaxPerSite, vsched.MaxPerFn = 3, 1
+	ops := c20ops()
+	var idx []int
+	for _, a := range args[:2] {
+		for i, o := range ops {
+			if o.name == a {
+				idx = append(idx, i)
+			}
+		}
+	}
+	var prefix []int
+	for _, f := range strings.Split(args[2], ",") {
+		if f != "" {
+			var v int
+			fmt.Sscan(f, &v)
+			prefix = append(prefix, v)
+		}
+	}
+	c := explore.Replay(prefix)
+	res := c20coldResult{Outs: make([]string, len(idx))}
+	bodies := make([]func(), len(idx))
+	for t, oi := range idx {
+		t, oi := t, oi
+		bodies[t] = func() { res.Outs[t] = ops[oi].run(t) }
+	}
+	if perr := recoverErr(func() {
+		if _, err := vsched.Run(bodies, func(p vsched.Point) int { return c.Pick("at "+p.Label, len(p.Enabled)) }); err != nil {
+			res.Err = err.Error()
+		}
+	}); perr != nil {
+		res.Panic = perr.Error()
+	}
+	res.Arity = c.Arity
+	b, _ := json.Marshal(res)
+	fmt.Fprintln(real, string(b))
+}
+
+// c20cold explores one pair from cold; returns the number of executions.
+func c20cold(ctx *Ctx, l *report.Local, ops []c20op, seq map[string]string, a, b int) int64 {
+	r := ctx.R
+	self, err := os.Executable()
+	if err != nil {
+		r.HarnessError(err.Error())
+		return 0
+	}
+	gname := "cold start: " + ops[a].name + " || " + ops[b].name
+	cb := 1
+	if ctx.Thorough {
+		cb = 2
+	}
+	st := explore.Explore(explore.Config{Bound: cb, Workers: 1, Deadline: time.Now().Add(300 * time.Second)}, func(c *explore.Chooser, w int) {
+		var picks []string
+		for _, v := range c.Prefix() {
+			picks = append(picks, fmt.Sprint(v))
+		}
+		cctx, cancel := context.WithTimeout(context.Background(), 10*time.Minute)
+		cmd := exec.CommandContext(cctx, self, "--worker", "c20cold", ops[a].name, ops[b].name, strings.Join(picks, ","))
+		cmd.Env = append(os.Environ(), "GOMAXPROCS=1")
+		out, err := cmd.Output()
+		cancel()
+		var res c20coldResult
+		if err != nil || json.Unmarshal(bytes.TrimSpace(out), &res) != nil {
+			r.HarnessError(fmt.Sprintf("%s: worker failed: %v %s", gname, err, tail(string(out), 300)))
+			return
+		}
+		for i, n := range res.Arity {
+			c.Pick(fmt.Sprint("point ", i), n)
+		}
+		cs := fmt.Sprintf("%s schedule %v", gname, c.Picks)
+		l.Case(cs, c.Deviations() > 0, strings.Join(res.Outs, "|"))
+		l.Trace()
+		if res.Panic != "" {
+			r.Violate("cold-start/panic/"+gname, cs, res.Panic, c.Picks)
+			return
+		}
+		if res.Err != "" {
+			r.Violate("cold-start/deadlock/"+gname, cs, res.Err, c.Picks)
+			return
+		}
+		for t, oi := range []int{a, b} {
+			if want := seq[fmt.Sprint(ops[oi].name, t)]; res.Outs[t] != want {
+				r.Violate("cold-start/result-differs-from-sequential/"+gname, cs, fmt.Sprintf("thread %d (%s): %s, alone: %s", t, ops[oi].name, res.Outs[t], want), c.Picks)
+				return
+			}
+		}
+	})
+	if !st.Complete {
+		r.NotExhaustive(gname + ": budget ended")
+	}
+	return st.Executions
 }
 
 var raceRe = regexp.MustCompile(`(?s)WARNING: DATA RACE.*?==================`)
